@@ -386,7 +386,7 @@ func (t *table) loadBlock(idx int) (*block, error) {
 	readPos := len(b.data) - 4 // First read checksum length.
 	b.chkLen = int(kv.BytesToU32(b.data[readPos : readPos+4]))
 
-	if b.chkLen > len(b.data) {
+	if b.chkLen > readPos {
 		return nil, errors.New("invalid checksum length. Either the data is " +
 			"corrupted or the table options are incorrectly set")
 	}
